@@ -1085,7 +1085,13 @@ func (e *env) main(inClose, closeReturned *bool) {
 			}
 		}
 	}
-	if obs.Panic == "" && !obs.RunErr && spec.Close {
+	runnerFailed := false
+	if spec.CloseAfterRunnerFailure && obs.RunErr {
+		for site := range ctx.Fired() {
+			runnerFailed = runnerFailed || strings.HasPrefix(site, "run:")
+		}
+	}
+	if obs.Panic == "" && (!obs.RunErr || runnerFailed) && spec.Close {
 		ctx.Log("close-call", "", "")
 		*inClose = true
 		a.Close()
